@@ -19,6 +19,7 @@ import (
 	"bytes"
 	"encoding/json"
 	"fmt"
+	"unicode/utf8"
 
 	"github.com/matrix-org/gomatrixserverlib/spec"
 	"github.com/tidwall/sjson"
@@ -38,6 +39,12 @@ func SignJSON(signingName string, keyID KeyID, privateKey ed25519.PrivateKey, me
 	// readers (first copy, last copy, both): there is no one value to sign.
 	if err = checkNoDuplicateKeys(message); err != nil {
 		return nil, err
+	}
+	// JSON is UTF-8. encoding/json reads an invalid byte as U+FFFD, the
+	// byte-level readers used here do not, so they would not agree on what the
+	// member names are.
+	if !utf8.Valid(message) {
+		return nil, fmt.Errorf("gomatrixserverlib: cannot sign JSON that is not valid UTF-8")
 	}
 	// Existing signatures are carried over verbatim: they are not ours to decode.
 	// Only the members named exactly "signatures" and "unsigned" are special.
@@ -131,6 +138,12 @@ func VerifyJSON(signingName string, keyID KeyID, publicKey ed25519.PublicKey, me
 	// signed member would go unnoticed while other readers take it as the value.
 	if err := checkNoDuplicateKeys(message); err != nil {
 		return err
+	}
+	// ... and a name with an invalid byte in it would be decoded as a name with
+	// U+FFFD in that place: "k\xff" inserted in front of a signed "k\ufffd" is
+	// no duplicate to the check above and the same member to the decoder below.
+	if !utf8.Valid(message) {
+		return fmt.Errorf("gomatrixserverlib: JSON is not valid UTF-8")
 	}
 	// Unpack the top-level key of the JSON object without unpacking the contents of the keys.
 	// This allows us to add and remove the top-level keys from the JSON object.
